@@ -74,6 +74,12 @@ two_arg_xforms: Mapping[str, Callable[[str, int], str]] = {
 class FrozenAttributes(Dict[str, Union[int, bool]]):
     """Immutable dictionary class for format string attributes"""
 
+    def __init__(self, *args: Any, **kwds: Any) -> None:
+        if getattr(self, "_frozen", False):
+            raise Exception("Cannot change value.")
+        super().__init__(*args, **kwds)
+        self._frozen = True
+
     def __setitem__(self, key: str, value: Union[int, bool]) -> None:
         raise Exception("Cannot change value.")
 
